@@ -472,6 +472,9 @@ class C17(core.Check):
             return getattr(self, "impl_" + k)(case)
         except core.MachineryError:
             raise
+        except Exception as e:        # the implementation misbehaved in a way the runner did not foresee
+            self._stash = {}
+            return {"err": "unexpected:" + type(e).__name__}
 
     def impl_markup(self, case):
         import urwid
@@ -491,7 +494,9 @@ class C17(core.Check):
 
     def _rows_result(self, canv):
         """Correspondence observes the canvas' attribute runs exactly; the oracle reads content()."""
+        from urwid import str_util
         rows = content_rows(canv)
+        self._short = sum(1 for _, bs in rows if str_util.calc_width(bs, 0, len(bs)) != canv.cols())
         return {"rows": [[[id_of(a), n] for a, n in line] for line in canv._attr]}, rows
 
     def impl_text(self, case):
@@ -637,8 +642,8 @@ class C17(core.Check):
                 pairs = {}
                 for r in range(h):
                     for c in range(w):
-                        o = own[rid][r][c] if rid >= 0 else None
                         try:
+                            o = own[rid][r][c] if rid >= 0 else None
                             f = grid[y + r][x + c]
                         except IndexError:
                             consistent = False
@@ -919,12 +924,17 @@ class C17(core.Check):
                     regs = st["regs"]
                     mi = 0
                     for rid, x, y, w, h in regs:
+                        if mi >= len(obs_all):
+                            break
                         cid, applied = obs_all[mi]
                         mi += 1
                         present = set()
                         for r in range(h):
                             for c in range(w):
-                                present.add(st["own"][rid][r][c] if rid >= 0 else None)
+                                try:
+                                    present.add(st["own"][rid][r][c] if rid >= 0 else None)
+                                except IndexError:
+                                    pass
                         pairs = [[o, applied[0] if o is None else applied[o + 1]] for o in present if o != "split"]
                         obs.append([rid, sorted(pairs, key=lambda p: (p[0] is not None, p[0] or 0))])
                 return {"views": sorted(views, key=core.canon), "obs": sorted(obs, key=core.canon)}
@@ -1228,8 +1238,8 @@ class C17(core.Check):
             if case["kind"] == "text":
                 inc("wrap:" + case["wrap"])
                 inc("align:" + case["align"])
-        if case["kind"] in ("text", "layout") and self._stash.get("short_rows"):
-            inc("obs:row_content_shorter_than_layout")
+        if case["kind"] in ("text", "layout") and "rows" in res and getattr(self, "_short", 0):
+            inc("obs:content_row_narrower_than_canvas(zero-length attribute run)")
         if case["kind"] == "escape":
             inc("depth:%d" % case["spec"][2])
         if case["kind"] == "palette":
@@ -1507,24 +1517,24 @@ class C17(core.Check):
             yield {"kind": "markup", "m": m}
             for wrap in ("any", "clip", "ellipsis"):
                 yield {"kind": "text", "m": m, "w": 2, "align": "right", "wrap": wrap, "enc": "utf-8"}
-        for _ in range(6000 if big else 700):
+        for _ in range(15000 if big else 2500):
             yield self.gen_markup(rng, False)
-        for _ in range(1500 if big else 200):
+        for _ in range(4000 if big else 600):
             yield self.gen_markup(rng, True)
-        for _ in range(25000 if big else 2200):
+        for _ in range(120000 if big else 9000):
             yield self.gen_text(rng)
-        for _ in range(8000 if big else 800):
+        for _ in range(40000 if big else 3500):
             yield self.gen_layout(rng, False)
-        for _ in range(2000 if big else 200):
+        for _ in range(8000 if big else 700):
             yield self.gen_layout(rng, True)
-        for _ in range(10000 if big else 900):
+        for _ in range(40000 if big else 3500):
             yield self.gen_maps(rng)
         yield from self.sweep_escape(tier)
-        for _ in range(8000 if big else 800):
+        for _ in range(30000 if big else 3000):
             yield self.gen_escape(rng)
-        for _ in range(6000 if big else 600):
+        for _ in range(25000 if big else 2500):
             yield self.gen_palette(rng)
-        for _ in range(2000 if big else 200):
+        for _ in range(8000 if big else 1000):
             ps = [rng.choice([0, 1, 2, 3, 4, 5, 7, 9, 22, 24, 27, 30, 31, 37, 38, 39, 40, 47, 48, 49, 90, 97, 100, 107, 255, 300])
                   for _ in range(rng.choice([1, 2, 3, 5, 8]))]
             yield {"kind": "decode", "ps": ps}
